@@ -74,3 +74,7 @@ claim("C19", "reference-model monitor: independent days-from-civil calendar, per
       "One child per local time zone (TZ set before start, 9 zones) evaluates date(y,m,d) for years 1-9999 with months/days from -40 to 60, the field extractors, millSecond, addDate, useTimezone and timeFormat on random instants and on instants around every DST transition of the zone between 1900 and 2100; civil fields, weekday, milliseconds, carry and formatting are computed independently (Hinnant's days-from-civil), instants are checked against local midnight / same clock time under the zone's offsets, unknown zones must be errors, now/toDay against the wall-clock bracket.",
       "Trusts Go's time package for zone offsets only; the meaning of 'local midnight' on skipped/repeated midnights is the candidate-offset rule stated in the assumptions.",
       "5/C19")
+claim("C09", "Go race detector on a race-instrumented harness + sequential-equivalence monitor, one child process per concurrency configuration",
+      "Per configuration (2-32 goroutines, GOMAXPROCS 1-16, hook-driven yield probability) a race-instrumented child shares a pool of parsed trees covering every builtin, operator and node kind among goroutines that each evaluate them with their own runner and goroutine-specific data, run the field analysis, and parse valid and invalid texts of their own (fresh identifiers, formatted diagnostics); GORACE logs are collected and de-duplicated by access-site pair, Go runtime fatals (concurrent map access) are attributed through breadcrumbs, and every concurrent result must equal the one computed sequentially for that goroutine's data. Overlapping evaluations of the same tree and injected yields are counted in the evidence.",
+      "Trusts the Go race detector (reports only executed paths, bounded history); schedules are those that occurred under the listed configurations.",
+      "5/C09")
